@@ -7,8 +7,11 @@
   `IsNextAfter sm d e` : `e = (d + k) % max` for some `1 ≤ k < max`, `e` is playable in `sm`, and none of the seats
   `(d + 1) % max, …, (d + k - 1) % max` is playable in `sm` — the first playable seat clockwise strictly after `d`.
   `IsFirstPlayable sm e` : `e` is playable and no lower-numbered seat is.
+  `NoButtonAfterNext sm` (Proofs/SMGapsButton.lean) : `sm.nonEmptyCount = 0 ∨ (sm.dealer = none ∧ sm.nonEmptyCount = 1 ∧
+  sm.playableCount = 1)` — the states in which a call of `Next()` leaves the seat manager without a dealer.
 -/
 import Pokerface.Proofs.SMRefuse
+import Pokerface.Proofs.SMGapsButton
 
 namespace Pokerface.C17
 open SM
@@ -16,8 +19,12 @@ open SM
 /-- **C17, first sentence.** If at least two seats are playable before `next`, then `next` succeeds and the new
 dealer is, with respect to the *pre*-state, the first playable seat clockwise strictly after the old dealer
 (`IsNextAfter sm d e`: so it is never the old dealer's seat again, never a seat behind a playable one — no player
-who could play is skipped — and never further than one lap); before the very first hand, when there is no dealer
-yet, it is the first playable seat scanning from seat 0 inclusive. -/
+who could play is skipped — and never further than one lap); when there is no previous dealer (`sm.dealer = none`)
+it is the first playable seat scanning from seat 0 inclusive.
+"No previous dealer" is *not* only "before the very first hand": `nextDealer` also resets the dealer to `none` in a
+refused `Next()` that finds nobody to give the button to (e.g. after everybody has left), so the next successful
+`Next()` after such a refusal starts from seat 0 again, whoever held the button before.  `dealer_none_iff` below
+states exactly in which reachable states `dealer = none`; the second non-vacuity example below shows the reset. -/
 theorem button_next (sm : SM) (h : Reachable sm) (hc : 2 ≤ sm.playableCount) :
     (sm.step .next).2.1 = none ∧
     ∃ e, (sm.step .next).1.dealer = some e ∧
@@ -120,5 +127,75 @@ theorem next_refused_iff (sm : SM) (h : Reachable sm) :
 example : ((SM.new 3).run [.join 0 1 none, .seat 0, .join 2 2 none, .seat 2, .next, .join 1 3 none, .seat 1,
     .leave 0, .leave 2]).nonEmptyCount = 1 := by decide
 example : (SM.new 3).nonEmptyCount = 0 := by decide
+
+/-! ## When is there no previous dealer? (review gap 3) -/
+
+/-- **Exactly when `dealer = none`** in a reachable state, for every table size and history: either no `Next()` has
+been called yet (fresh table, possibly with joins / sit-ins / reserves / leaves), or the *last* `Next()` of the
+history was called in a state `NoButtonAfterNext`: no seat occupied-and-not-reserved at all (then `nextDealer`
+resets the dealer to `none`), or no dealer yet and exactly one occupied non-reserved seat which is already
+playable (then `nextDealer` touches nothing).  Operations other than `Next()` never change the dealer. -/
+theorem dealer_none_iff (max : Nat) (ops : List SMOp) :
+    ((SM.new max).run ops).dealer = none ↔
+      SMOp.next ∉ ops ∨
+      ∃ pre post, ops = pre ++ SMOp.next :: post ∧ SMOp.next ∉ post ∧
+        NoButtonAfterNext ((SM.new max).run pre) := by
+  have key : ∀ pre post, ops = pre ++ SMOp.next :: post → SMOp.next ∉ post →
+      (((SM.new max).run ops).dealer = none ↔ NoButtonAfterNext ((SM.new max).run pre)) := by
+    intro pre post he hp
+    have hr : Reachable ((SM.new max).run pre) := ⟨max, pre, rfl⟩
+    rw [he, run_split, run_dealer_of_no_next _ _ hp]
+    exact step_next_dealer_none_iff hr.inv hr.dealerActive
+  by_cases hm : SMOp.next ∈ ops
+  · obtain ⟨pre, post, he, hp⟩ := split_last_next ops hm
+    constructor
+    · intro hd; right; exact ⟨pre, post, he, hp, (key pre post he hp).mp hd⟩
+    · rintro (hno | ⟨pre', post', he', hp', hnb⟩)
+      · exact absurd hm hno
+      · exact (key pre' post' he' hp').mpr hnb
+  · constructor
+    · intro _; left; exact hm
+    · intro _; rw [run_dealer_of_no_next _ _ hm]; rfl
+
+/-- Consequence in the wording of the review: in a reachable state without a dealer, either the table is fresh (no
+`Next()` so far) or the last `Next()` was refused with the insufficient-players error.  (The converse fails: a
+refused `Next()` may also keep, or even move, the button — see the examples.) -/
+theorem dealer_none_fresh_or_refused (max : Nat) (ops : List SMOp) (hd : ((SM.new max).run ops).dealer = none) :
+    SMOp.next ∉ ops ∨
+    ∃ pre post, ops = pre ++ SMOp.next :: post ∧ SMOp.next ∉ post ∧
+      (((SM.new max).run pre).step .next).2.1 = some .insufficientPlayers := by
+  rcases (dealer_none_iff max ops).mp hd with h | ⟨pre, post, he, hp, hnb⟩
+  · exact Or.inl h
+  · right
+    refine ⟨pre, post, he, hp, insufficient_refused _ ⟨max, pre, rfl⟩ ?_⟩
+    rcases hnb with h0 | ⟨_, h1, _⟩ <;> omega
+
+/-- One step: after `Next()` (accepted or refused) from a reachable state there is no dealer iff the state was
+`NoButtonAfterNext`; in particular after a successful `Next()` there always is one. -/
+theorem next_dealer_none_iff (sm : SM) (h : Reachable sm) :
+    (sm.step .next).1.dealer = none ↔ NoButtonAfterNext sm :=
+  step_next_dealer_none_iff h.inv h.dealerActive
+
+/-- Non-vacuity, the reset: a hand is played with the button on seat 2 (players on 2 and 3), everybody leaves, `Next()`
+is refused and resets the dealer; two new players on seats 3 and 1 then get the button on seat 1 (first playable
+seat from seat 0), not on seat 3 (first playable seat after the old button). -/
+example : let ops : List SMOp := [.join 2 1 none, .seat 2, .join 3 2 none, .seat 3, .next, .leave 2, .leave 3, .next,
+      .join 3 3 none, .seat 3, .join 1 4 none, .seat 1]
+    ((SM.new 4).run (ops.take 5)).dealer = some 2 ∧ ((SM.new 4).run (ops.take 7)).dealer = some 2 ∧
+    ((SM.new 4).run (ops.take 7)).nonEmptyCount = 0 ∧
+    (((SM.new 4).run (ops.take 7)).step .next).2.1 = some .insufficientPlayers ∧
+    ((SM.new 4).run ops).dealer = none ∧ ((SM.new 4).run ops).playableCount = 2 ∧
+    (((SM.new 4).run ops).step .next).1.dealer = some 1 := by decide
+/-- Non-vacuity, the other disjunct of `NoButtonAfterNext`: a lone seated player, no dealer yet; `Next()` is refused
+and there is still no dealer. -/
+example : let sm := (SM.new 3).run [.join 1 1 none, .seat 1]
+    sm.dealer = none ∧ sm.nonEmptyCount = 1 ∧ sm.playableCount = 1 ∧ (sm.step .next).1.dealer = none := by decide
+/-- A refused `Next()` does not always clear the button: with one player left it stays where it was; and a lone
+*waiting* player (seat 1 was deactivated, then taken) even receives it although `Next()` is refused. -/
+example : let sm := (SM.new 3).run [.join 0 1 none, .seat 0, .join 2 2 none, .seat 2, .next, .leave 2]
+    (sm.step .next).2.1 = some .insufficientPlayers ∧ (sm.step .next).1.dealer = some 0 := by decide
+example : let sm := (SM.new 3).run [.join 0 1 none, .seat 0, .join 2 2 none, .seat 2, .next, .join 1 3 none, .seat 1,
+      .leave 0, .leave 2]
+    sm.dealer = some 0 ∧ (sm.step .next).2.1 = some .insufficientPlayers ∧ (sm.step .next).1.dealer = some 1 := by decide
 
 end Pokerface.C17
